@@ -163,7 +163,7 @@ def parse_nat_list(out):
     return [int(x) for x in re.findall(r"\d+", body)]
 
 
-def eval_cases(workdir, name, header, case_terms, check_fn, shard=400, timeout=900):
+def eval_cases(workdir, name, header, case_terms, check_fn, shard=400, timeout=900, case_type=None):
     """Evaluate `check_fn case = true` for every case inside Coq with vm_compute.
 
     header: Coq text (Requires, definition of check_fn : case -> bool).
@@ -175,7 +175,10 @@ def eval_cases(workdir, name, header, case_terms, check_fn, shard=400, timeout=9
         fn = os.path.join(workdir, "%s_%d.v" % (name, k))
         with open(fn, "w") as f:
             f.write(header + "\n")
-            f.write("Definition cases := %s.\n" % coq_list(sh_cases) if sh_cases else "Definition cases : list nat := [].\n")
+            # the element type is taken from check_fn's domain (so an all-empty field such as `[]` still elaborates)
+            ty = " : list (%s)" % case_type if case_type else ""
+            f.write("Definition cases_of_ {A} (f : A -> bool) (l : list A) := l.\n")
+            f.write("Definition cases%s := cases_of_ %s %s.\n" % (ty, check_fn, coq_list(sh_cases)) if sh_cases else "Definition cases : list nat := [].\n")
             if sh_cases:
                 f.write(
                     "Fixpoint bad_ix {A} (f : A -> bool) (i : nat) (l : list A) : list nat :=\n"
